@@ -388,7 +388,7 @@ func runC05(c *core.Ctx) {
 					// frozen exception: a live shard without owners cannot be published by the metadata
 					// (Data.RemoveShardOwner deletes an ownerless shard, Data.DeleteDataNode reassigns orphans or
 					// marks the group deleted), so the defensive skip on an empty owner list is unreachable.
-					if isOwnersLenGuard(info, zero, valObj) {
+					if isOwnersLenGuard(info, zero, valObj) || isOwnersLenGuardViaHelper(c, f, zero, valObj) {
 						c.Check("at-least-once", key+"/min(no-owners-skip)", c.P.Pos(rs.Pos()), true,
 							"exempt: skip of a shard with an empty owner list; the metadata never publishes a live shard without owners (see C06)")
 						n++
@@ -799,4 +799,135 @@ func runEveryRemoteGroupConsulted(c *core.Ctx) {
 		}
 	}
 	c.Floor("fan-out methods of the cluster mappings", n, 6)
+}
+
+// isOwnersLenGuardViaHelper: the zero-append path ends on `!ok` / `ok` where ok is the second result of a helper
+// of this program called with the shard, and the helper returns a non-true second result only on paths where
+// len(<param>.Owners) == 0 was established: the same frozen exception as isOwnersLenGuard, seen through a
+// selection helper.
+func isOwnersLenGuardViaHelper(c *core.Ctx, f *core.FuncInfo, path []*core.Event, shard types.Object) bool {
+	info := f.Info()
+	var last ast.Expr
+	for _, e := range path {
+		if e.Kind == core.EvCond {
+			last = e.Node.(ast.Expr)
+		}
+	}
+	if last == nil {
+		return false
+	}
+	x := ast.Unparen(last)
+	if ue, ok := x.(*ast.UnaryExpr); ok && ue.Op == token.NOT {
+		x = ast.Unparen(ue.X)
+	}
+	okID, ok := x.(*ast.Ident)
+	if !ok {
+		return false
+	}
+	okObj := info.ObjectOf(okID)
+	// the defining assignment: _, ok := h(..., shard, ...)
+	var call *ast.CallExpr
+	idx, defs := -1, 0
+	ast.Inspect(f.Root().Body, func(nd ast.Node) bool {
+		as, isAs := nd.(*ast.AssignStmt)
+		if !isAs {
+			return true
+		}
+		for i, l := range as.Lhs {
+			if lid, isID := l.(*ast.Ident); isID && info.ObjectOf(lid) == okObj {
+				defs++
+				if ce, isCall := as.Rhs[0].(*ast.CallExpr); isCall && len(as.Rhs) == 1 && len(as.Lhs) > 1 {
+					call, idx = ce, i
+				}
+			}
+		}
+		return true
+	})
+	if call == nil || defs != 1 {
+		return false
+	}
+	fn, _ := core.Callee(info, call).(*types.Func)
+	h := c.P.FuncOf(fn)
+	if h == nil || h.Decl == nil || h.Body == nil {
+		return false
+	}
+	// which parameter receives the shard?
+	var param types.Object
+	k := 0
+	for _, fld := range h.Decl.Type.Params.List {
+		for _, nm := range fld.Names {
+			if k < len(call.Args) {
+				a := ast.Unparen(call.Args[k])
+				if ue, isU := a.(*ast.UnaryExpr); isU && ue.Op == token.AND {
+					a = ast.Unparen(ue.X)
+				}
+				if id, isID := a.(*ast.Ident); isID && info.ObjectOf(id) == shard {
+					param = h.Info().Defs[nm]
+				}
+			}
+			k++
+		}
+	}
+	if param == nil {
+		return false
+	}
+	hinfo := h.Info()
+	noOwners := func(st core.State) bool {
+		for key, fct := range st {
+			if key.Root != nil || !strings.HasPrefix(key.Path, "cond:") || fct.Def == nil || fct.Bool == 0 {
+				continue
+			}
+			var atoms []atomB
+			decompose(fct.Def, fct.Bool == 1, &atoms)
+			for _, a := range atoms {
+				be, isB := ast.Unparen(a.x).(*ast.BinaryExpr)
+				if !isB {
+					continue
+				}
+				ce, isC := ast.Unparen(be.X).(*ast.CallExpr)
+				if !isC || !isLenCall(hinfo, ce) || len(ce.Args) != 1 {
+					continue
+				}
+				se, isS := ast.Unparen(ce.Args[0]).(*ast.SelectorExpr)
+				if !isS || se.Sel.Name != "Owners" {
+					continue
+				}
+				if id, isID := se.X.(*ast.Ident); !isID || hinfo.ObjectOf(id) != param {
+					continue
+				}
+				tv := hinfo.Types[be.Y]
+				if tv.Value == nil {
+					continue
+				}
+				if v, _ := constInt(tv.Value); v != 0 {
+					continue
+				}
+				if (be.Op == token.EQL && a.val) || ((be.Op == token.GTR || be.Op == token.NEQ) && !a.val) {
+					return true
+				}
+			}
+		}
+		return false
+	}
+	good, seen := true, 0
+	complete := h.Flow().ExplorePaths(func(key core.VarKey, fct core.Fact) bool {
+		return key.Root == nil && strings.HasPrefix(key.Path, "cond:")
+	}, func(e *core.Event, st core.State) {
+		if e.Kind != core.EvReturn {
+			return
+		}
+		r, _ := h.ResultExpr(e, idx)
+		if r == nil {
+			good = false
+			return
+		}
+		if tv := hinfo.Types[r]; tv.Value != nil && tv.Value.String() == "true" {
+			return
+		}
+		seen++
+		if !noOwners(st) {
+			good = false
+		}
+	})
+	return complete && good && seen > 0
 }
